@@ -74,7 +74,7 @@ def main():
             sh("git -C %s worktree remove --force %s" % (REPO, wt)); continue
         open(path, "w").writelines(new)
         rec = {"file": f, "line": m[0] + 1, "kind": m[1], "from": m[2], "to": m[3], "orig": lines[m[0]].rstrip("\n"), "mutant": new[m[0]].rstrip("\n")}
-        r = sh("/tmp/seedkit/build_and_test.sh %s" % wt)
+        r = sh("/verif/tools/build_and_test.sh %s" % wt)
         if "SUMMARY" not in r.stdout or not r.stdout.strip().endswith("0 failed"):
             rec["status"] = "killed_by_repo_tests_or_build"
         else:
